@@ -37,6 +37,8 @@ def build_doc(rng):
     for e in range(n_enum):
         kind = rng.choice(["strings", "values", "none"])
         name = "Enum%d%s" % (e, rng.choice(["", "é", " x"]))
+        if enums and rng.random() < 0.3:
+            name = enums[0]["name"]           # two enumeration types may carry the same browse name (they are different types)
         k = rng.randint(1, 4)
         if kind == "values":
             keys = sorted(rng.sample(range(0, 12), k))
